@@ -3,7 +3,7 @@ an environment record of the model, read the configuration protocol from its std
 to its listeners, send signals, close its stdin, and observe whether it is alive or has exited."""
 import os, re, select, signal, socket, subprocess, tempfile, time, shutil
 
-SETTLE = 2.5          # seconds a process gets to exit after the last event that obliges it to
+SETTLE = 4.0          # seconds a process gets to exit after the last event that obliges it to (generous: loaded machines)
 CONFIG_LIMIT = 8.0    # seconds for the configuration protocol
 
 
@@ -203,7 +203,7 @@ def run_scenario(binary, scen, scratch):
                 ev.append({"event": "Ask", "s": st["s"]})
                 pr.ask(st["s"])
                 # what does it do about it right now (with its connections still open)?
-                if pr.exited(1.0):
+                if pr.exited(2.5):
                     ev.append({"event": "Exited"})
                     return ev
                 ev.append({"event": "Alive"})
